@@ -379,6 +379,30 @@ fn main() {
         t
     });
 
+    // E10: numerals spelled from the structured integers (word limits, word-crossing products, the digit
+    // patterns at every length, carry chains, all-ones words) in every position of a numeral
+    let st = props::alpha::structured_ints(tier.pick(80, 300), tier.pick(24, 60), 1);
+    run.bound("E10_structured_integers", st.len());
+    run.par("E10 structured digit strings", st.len(), |i| {
+        let mut t = Tally::default();
+        let d = st[i].to_string();
+        let h = d.len() / 2;
+        let mut forms: Vec<String> = vec![d.clone(), format!("{}.", d), format!(".{}", d), format!("0.{}", d), format!("{}.{}", &d[..h], &d[h..]), format!("{}e5", d), format!("{}E-{}", d, d.len()), format!("0.{}e-7", d), format!("{}_", d), format!("1e{}", d), format!("1e-{}", d), format!("+{}", d)];
+        let signed: Vec<String> = forms.iter().filter(|f| !f.starts_with('+')).map(|f| format!("-{}", f)).collect();
+        forms.extend(signed);
+        for f in forms {
+            t.states += 1;
+            t.nontrivial += 1;
+            for e in ENTRIES {
+                t.transitions += 1;
+                if let Some(v) = check(e, f.as_bytes(), 10) {
+                    run.report(v);
+                }
+            }
+        }
+        t
+    });
+
     // E9: long inputs of every outcome class (valid, scale overflow, i128 overflow, second dot, underscores)
     // with a multi-byte character inserted at / substituted for every position: no byte offset computed from
     // the length may ever be used to slice the input
